@@ -7,6 +7,7 @@ Tie: the C01/C02 correspondence repeated at large sizes with certified optima (s
 [T] the laws themselves evaluated on the real code on triples of up to hundreds of points, under several hash seeds.
 """
 import json, math, os, subprocess, sys
+from fractions import Fraction
 import numpy as np
 from .. import common
 from ..common import close
@@ -39,6 +40,29 @@ def gen_dgm(ctx, nmax, mode=None):
     return pts
 
 
+def derive(ctx, X, mode):
+    """a diagram related to X: some points kept bit-identical (shared points), some moved along or across the
+    diagonal by a lattice step (relay structures x-e -> x -> x+e), some dropped, some new"""
+    r = ctx.rng
+    step = r.choice([0.5, 1.0, 1.0, 0.125])
+    out = []
+    for p in X:
+        u = r.random()
+        if u < 0.35:
+            out.append(list(p))
+        elif u < 0.6:
+            s = r.choice([-1, 1]) * step
+            out.append([p[0] + s, p[1] + s])
+        elif u < 0.8:
+            q = [p[0] + r.choice([-1, 0, 1]) * step * 0.5, p[1] + r.choice([-1, 0, 1]) * step * 0.5]
+            out.append(q if q[1] >= q[0] else list(p))
+        elif u < 0.9:
+            continue
+        else:
+            out.append(list(p)); out.append(ctx.gen.bar(mode, allow_diag=True))
+    return out
+
+
 def hashseed_values(cases, seed):
     env = dict(os.environ, PYTHONHASHSEED=str(seed), PERSIM_ROOT=common.REPO)
     p = subprocess.run([sys.executable, os.path.join(common.VERIF, "harness", "hashseed_worker.py")],
@@ -61,7 +85,17 @@ def run(ctx):
         for it in range(ntrip):
             mode = ctx.gen.mode()
             big = nmax if (it % 10 == 0) else max(3, nmax // r.choice([1, 2, 4, 10]))
-            X, Y, Z = (gen_dgm(ctx, big, mode) for _ in range(3))
+            if it % 3 == 0:
+                X, Y, Z = (gen_dgm(ctx, big, mode) for _ in range(3))
+                ctx.count("triples_independent")
+            else:                                   # related diagrams: shared points, relays, near-copies
+                X = gen_dgm(ctx, big, mode); Y = derive(ctx, X, mode); Z = derive(ctx, Y, mode)
+                if r.random() < 0.5:
+                    X, Y, Z = Y, X, Z               # X and Z both derived from the middle one
+                ctx.count("triples_related")
+            g = 2.0 ** r.choice([-40, -30, -24, -20, -10, 0, 0, 0, 10, 20])   # one scale for the whole triple
+            X, Y, Z = ([[a * g, b * g] for a, b in D] for D in (X, Y, Z))
+            ctx.count("scale=2^%d" % int(math.log2(g)))
             nontriv = sum(len(d) >= 3 for d in (X, Y, Z)) >= 2
             ctx.case({"X": X[:4], "Y": Y[:4], "Z": Z[:4], "sizes": [len(X), len(Y), len(Z)]}, nontriv, sample_every=13)
             ctx.count("size<=%d" % (10 ** len(str(max(len(X), len(Y), len(Z), 1)))))
@@ -83,8 +117,8 @@ def run(ctx):
                    "diagonal_points_ignored")
                 t = r.choice([1.0, -3.0, 0.125]) * scale
                 ok(abs(f(ax + t, ay + t) - dxy) <= tol * 4, "translate_along_diagonal")
-                lam = r.choice([0.5, 4.0, 3.7, 1e-3])
-                ok(abs(f(ax * lam, ay * lam) - lam * dxy) <= tol * max(1.0, lam), "scales_linearly")
+                lam = r.choice([0.5, 4.0, 3.7, 1e-3, 1e-7, 2.0 ** -30, 2.0 ** 20])
+                ok(abs(f(ax * lam, ay * lam) - lam * dxy) <= tol * lam, "scales_linearly")
                 empty = np.zeros((0, 2))
                 pers = ax[:, 1] - ax[:, 0] if len(X) else np.zeros(0)
                 want = (pers.max() / 2 if len(X) else 0.0) if name == "bn" else pers.sum() / math.sqrt(2)
@@ -114,22 +148,44 @@ def run(ctx):
 
 
 def large_sizes(ctx):
-    """the C01/C02 correspondence (certified optimum vs the code's value) at sizes up to 150+150; wired in once
-    harness/props/c01.py / c02.py expose `certified_compare`"""
-    for name in ("c01", "c02"):
-        try:
-            mod = __import__("harness.props." + name, fromlist=["x"])
-        except ImportError:
-            ctx.count("large_sizes_%s_unavailable" % name)
-            continue
-        fn = getattr(mod, "certified_compare", None)
-        if fn is None:
-            ctx.count("large_sizes_%s_unavailable" % name)
-            continue
-        sizes = [(30, 30), (80, 60)] if not ctx.thorough else [(30, 30), (80, 60), (150, 150), (150, 10)]
-        for (m, n) in sizes:
-            X = gen_dgm(ctx, m, "dyadic"); Y = gen_dgm(ctx, n, "dyadic")
-            fn(ctx, X, Y)
+    """the C01 (and, when available, C02) correspondence repeated at large sizes and on RELATED pairs (shared
+    points, relays, near-copies): the real value vs an optimum whose certificate the Lean-proved checker accepts"""
+    import warnings
+    bn = common.pm("bottleneck").bottleneck
+    try:
+        from . import c01
+    except ImportError:
+        ctx.count("large_sizes_c01_unavailable"); c01 = None
+    r = ctx.rng
+    sizes = [(6, 6), (12, 10), (30, 30), (80, 60)] * ctx.n(3, 6) + ([(150, 150), (150, 10)] if ctx.thorough else [])
+    cases, lines = [], []
+    for (m, n) in sizes:
+        mode = r.choice(["lattice", "half", "dyadic"])        # exact comparison modes
+        X = gen_dgm(ctx, m, mode)
+        Y = derive(ctx, X, mode) if r.random() < 0.7 else gen_dgm(ctx, n, mode)
+        if r.random() < 0.5:
+            B = X; X = derive(ctx, B, mode); Y = derive(ctx, B, mode)     # both derived from a common middle
+        if c01 is not None:
+            case = {"dgm1": X, "dgm2": Y, "mode": "dyadic"}
+            v, line = c01.truth_for(case)
+            cases.append((case, v)); lines.append(line)
+    if not lines:
+        return
+    answers = common.ask(lines)
+    with warnings.catch_warnings():
+        warnings.simplefilter("ignore")
+        for (case, v), ans in zip(cases, answers):
+            if ans is not True:
+                raise common.HarnessError("cert.opt rejected the certificate of the independent oracle: %r" % (ans,))
+            code = float(bn(A(case["dgm1"]), A(case["dgm2"])))
+            ok = math.isfinite(code) and Fraction(code) == v
+            ctx.test("bn.value_is_certified_optimum", ok)
+            ctx.count("certified_pairs_size<=%d" % (10 ** len(str(max(len(case["dgm1"]), len(case["dgm2"]), 1)))))
+            if not ok:
+                ctx.violation("bottleneck value %r differs from the certified min-max matching cost %s" % (code, v),
+                              {"X": case["dgm1"], "Y": case["dgm2"], "Z": [], "fn": "bn", "laws": ["value_is_certified_optimum"],
+                               "certified": str(v)})
+                return
 
 
 def replay(ctx, rep):
